@@ -102,24 +102,24 @@ Definition est_distance (inp : input) (s : state) (mv : move) : bool :=
 (* ------------------------------------------------------------------ *)
 
 (* simulate; [check prev_end arrival start end stop] returns true when violated *)
-Fixpoint sim_all (inp : input) (endv : Z) (prev : nat) (stops : list nat)
+Fixpoint sim_all (inp : input) (v : nat) (endv : Z) (prev : nat) (stops : list nat)
          (check : Z -> Z -> Z -> nat -> bool) : bool :=
   match stops with
   | [] => false
   | x :: rest =>
-      let '(_, arrival, start, en) := temporal_values inp endv prev x in
-      if check arrival start en x then true else sim_all inp en x rest check
+      let '(_, arrival, start, en) := temporal_values inp v endv prev x in
+      if check arrival start en x then true else sim_all inp v en x rest check
   end.
 
 Definition est_latest_start (inp : input) (s : state) (mv : move) : bool :=
   let h := hypo_of inp s mv in
-  sim_all inp (c_end (h_prev h)) (c_stop (h_prev h)) (h_suffix h)
+  sim_all inp (mv_vehicle mv) (c_end (h_prev h)) (c_stop (h_prev h)) (h_suffix h)
           (fun _ start _ x => match latest_start inp x with Some l => l <? start | None => false end).
 
 Definition est_latest_end (inp : input) (s : state) (mv : move) : bool :=
   let h := hypo_of inp s mv in
   let v := mv_vehicle mv in
-  sim_all inp (c_end (h_prev h)) (c_stop (h_prev h)) (h_suffix h)
+  sim_all inp v (c_end (h_prev h)) (c_stop (h_prev h)) (h_suffix h)
           (fun _ _ en x => match (if is_last_stop inp x then latest_end inp v else None) with
                            | Some l => l <? en | None => false end).
 
@@ -140,7 +140,7 @@ Definition prev_acc (old : list cell) (x : nat) : Z :=
 
 (* [guard acc x]: extra condition of the early break (the vehicle constraint only
    stops when the wait accumulated so far did not grow w.r.t. the cached one) *)
-Fixpoint sim_wait (check_end : bool) (inp : input) (us : list nat) (old : list cell) (endv : Z) (prev : nat)
+Fixpoint sim_wait (check_end : bool) (inp : input) (v : nat) (us : list nat) (old : list cell) (endv : Z) (prev : nat)
          (stops : list nat) (to_place : nat) (acc : Z)
          (violated : Z -> Z -> nat -> bool)   (* accumulated wait, this wait, stop *)
          (guard : Z -> nat -> bool)
@@ -148,7 +148,7 @@ Fixpoint sim_wait (check_end : bool) (inp : input) (us : list nat) (old : list c
   match stops with
   | [] => false
   | x :: rest =>
-      let '(_, arrival, start, en) := temporal_values inp endv prev x in
+      let '(_, arrival, start, en) := temporal_values inp v endv prev x in
       let planned := negb (mem_nat x us) in
       let to_place' := if planned then to_place else (to_place - 1)%nat in
       if (Nat.eqb to_place' 0) && planned && (arrival =? c_arrival (cell_of_stop old x)) &&
@@ -157,13 +157,13 @@ Fixpoint sim_wait (check_end : bool) (inp : input) (us : list nat) (old : list c
         let wait := start - arrival in
         let acc' := acc + wait in
         if violated acc' wait x then true
-        else sim_wait check_end inp us old en x rest to_place' acc' violated guard
+        else sim_wait check_end inp v us old en x rest to_place' acc' violated guard
   end.
 
 Definition est_max_wait_stop_gen (check_end : bool) (inp : input) (s : state) (mv : move) : bool :=
   let h := hypo_of inp s mv in
   let us := unit_stops inp (mv_unit mv) in
-  sim_wait check_end inp us (h_old h) (c_end (h_prev h)) (c_stop (h_prev h)) (h_suffix h) (length us) 0
+  sim_wait check_end inp (mv_vehicle mv) us (h_old h) (c_end (h_prev h)) (c_stop (h_prev h)) (h_suffix h) (length us) 0
            (fun _ wait x => match (if is_input_stop inp x then is_max_wait (get_stop inp x) else None) with
                             | Some w => w <? wait | None => false end)
            (fun _ _ => true).
@@ -174,7 +174,7 @@ Definition est_max_wait_vehicle_gen (check_end : bool) (inp : input) (s : state)
   match iv_max_wait (get_vehicle inp (mv_vehicle mv)) with
   | None => false
   | Some w =>
-      sim_wait check_end inp us (h_old h) (c_end (h_prev h)) (c_stop (h_prev h)) (h_suffix h) (length us)
+      sim_wait check_end inp (mv_vehicle mv) us (h_old h) (c_end (h_prev h)) (c_stop (h_prev h)) (h_suffix h) (length us)
                (c_wait_acc (h_prev h)) (fun acc _ _ => w <? acc)
                (fun acc x => acc <=? prev_acc (h_old h) x)
   end.
